@@ -374,6 +374,15 @@ pub mod digest {
     }
     pub static SHA256: Algorithm = Algorithm { id: 1, output_len: 32 };
     pub static SHA512: Algorithm = Algorithm { id: 2, output_len: 64 };
+    // two further uninterpreted functions, used by the pbkdf2 model only (a secret longer than 32 bytes is compressed first)
+    pub(crate) static MODEL_KDF_COMPRESS: Algorithm = Algorithm { id: 3, output_len: 32 };
+    pub(crate) static MODEL_KDF_LONG: Algorithm = Algorithm { id: 4, output_len: 64 };
+    impl Algorithm {
+        /// ring offers the length both as a field (0.16) and as a method
+        pub fn output_len(&self) -> usize {
+            self.output_len
+        }
+    }
     #[derive(Clone, Copy)]
     pub struct Digest {
         v: [u8; 64],
@@ -439,9 +448,16 @@ pub mod pbkdf2 {
         let mut inp = [0u8; 40];
         let s = if salt.len() < 8 { salt.len() } else { 8 };
         inp[..s].copy_from_slice(&salt[..s]);
-        assert!(secret.len() <= 32, "ring model: pbkdf2 secret longer than model cap");
-        inp[8..8 + secret.len()].copy_from_slice(secret);
-        let d = super::digest::digest(&super::digest::SHA512, &inp[..8 + secret.len()]);
+        assert!(secret.len() <= super::digest::INPUT_CAP, "ring model: pbkdf2 secret longer than model cap");
+        let d = if secret.len() <= 32 {
+            inp[8..8 + secret.len()].copy_from_slice(secret);
+            super::digest::digest(&super::digest::SHA512, &inp[..8 + secret.len()])
+        } else {
+            // 33..=40 bytes: (salt, secret) -> output stays a function of both, through two memo entries
+            let c = super::digest::digest(&super::digest::MODEL_KDF_COMPRESS, secret);
+            inp[8..40].copy_from_slice(c.as_ref());
+            super::digest::digest(&super::digest::MODEL_KDF_LONG, &inp)
+        };
         assert!(out.len() <= 64);
         let n = out.len();
         out.copy_from_slice(&d.as_ref()[..n]);
